@@ -562,6 +562,7 @@ func (fid *SrvFid) release() {
 	fid.Lock()
 	kept := fid.kept
 	fid.kept = false
+	verifPoint("@fid.release", fid.Fconn, fid, kept)
 	fid.Unlock()
 	if kept {
 		fid.DecRef()
